@@ -47,7 +47,7 @@ EXC_PARENTS = {'IndexError': 'LookupError', 'KeyError': 'LookupError', 'LookupEr
                'FieldSelectionError': 'Exception', 'ArgumentError': 'Exception', 'DuplicateKeyError': 'Exception',
                'ZeroDivisionError': 'ArithmeticError', 'ArithmeticError': 'Exception', 'AssertionError': 'Exception',
                'UserError': 'Exception', 'ExternalError': 'Exception', 'OSError': 'Exception', 'IOError': 'Exception',
-               'NameError': 'Exception', 'UnboundLocalError': 'NameError',
+               'NameError': 'Exception', 'UnboundLocalError': 'NameError', 'SourceError': 'Exception',
                'Exception': 'BaseException', 'GeneratorExit': 'BaseException', 'KeyboardInterrupt': 'BaseException'}
 
 
